@@ -223,12 +223,19 @@ def laws(rep, rnd, tier, pools, impl, I):
         lst = list(items)
         rnd.shuffle(lst)
         s_src = gal.src(gal.SetV(tuple(lst)))
-        m_src = gal.src(gal.MapV(tuple((x, 0) for x in lst)))
-        prog = "def s = %s; def m = %s; def l = %s; [list(s), [x for x in s], [k for k in keys m], min(l), max(l)]" % (s_src, m_src, gal.src(lst))
+        m_src = gal.src(gal.MapV(tuple((x, i) for i, x in enumerate(lst))))
+        # every way of enumerating a set or the keys of a map: statements, comprehensions, spread, conversion
+        prog = ("def s = %s; def m = %s; def l = %s; def r1 = []; for x in s do append(r1, x) end; def r2 = []; for k in keys m do append(r2, k) end; "
+                "def r3 = []; for e in entries m do append(r3, e[0]) end; def r4 = []; for [k, v] in entries m do append(r4, k) end; "
+                "def r5 = []; for v in values m do append(r5, v) end; def r6 = []; for v in m do append(r6, v) end; "
+                "[list(s), [x for x in s], [k for k in keys m], min(l), max(l), r1, r2, r3, r4, [e[0] for e in entries m], [...s], <<x for x in s>> == s, "
+                "r5, r6, [v for v in values m], [v for v in m], [[a, b] for a in keys m also for b in entries m][0][1][0], <<<k => 1 for k in keys m>>> == <<<k => 1 for k in s>>>]") % (
+                    s_src, m_src, gal.src(lst))
         out = impl.run_src(I, prog)
         mn = functools.reduce(lambda x, y: y if py_cmp(y, x) < 0 else x, lst)
         mx = functools.reduce(lambda x, y: y if py_cmp(y, x) > 0 else x, lst)
-        want = datagen.canon([ref, ref, ref, mn, mx])
+        vals = [lst.index(x) for x in ref]
+        want = datagen.canon([ref, ref, ref, mn, mx, ref, ref, ref, ref, ref, ref, True, vals, vals, vals, vals, ref[0], True])
         n += 1
         rep.nontriv(prog)
         if out != ("val", want):
